@@ -34,6 +34,7 @@ type event struct {
 	WKind   string
 	WPkg    int
 	File    string
+	Via     string
 }
 
 type tctx struct {
@@ -118,6 +119,15 @@ func (c *concRun) caller(tc *tctx, ops []Op) {
 	for idx, op := range ops {
 		tc.t.Yield()
 		switch op.Kind {
+		case "import":
+			// a lookup as clients perform it: every caller has a packages.Importer of its own,
+			// all of them backed by the shared cache; the oracle treats it as a Find
+			path := pkgName(op.Pkgs[0] % c.w.n)
+			c.logEv(tc, event{Kind: "invoke", Op: idx, OpKind: "find", Path: path})
+			content, err := importVia(c.impl, dir, path, idx%2 == 1)
+			c.poll(tc)
+			c.w.setWindow(tc.id, false)
+			c.logEv(tc, event{Kind: "return", Op: idx, OpKind: "find", Path: path, Content: content, Err: err != nil, Via: "import"})
 		case "find", "find_unknown":
 			path := "w/zz"
 			if op.Kind == "find" {
@@ -127,7 +137,7 @@ func (c *concRun) caller(tc *tctx, ops []Op) {
 			f, err := c.impl.Find(dir, path)
 			content := ""
 			if err == nil {
-				content = readAllNR(f)
+				content = identOf(c.w.real, readAllNR(f))
 			}
 			c.poll(tc)
 			c.w.setWindow(tc.id, false)
@@ -239,6 +249,11 @@ func execConc(r *Record, root string) *core.Outcome {
 		}
 	}
 	sort.Slice(hist, func(i, j int) bool { return hist[i].Seq < hist[j].Seq })
+	for _, e := range hist {
+		if e.Via == "import" {
+			out.Probe("lookup_through_importer")
+		}
+	}
 	stub, err := readStubLog(root)
 	if err != nil {
 		panic(err)
